@@ -287,20 +287,39 @@ def embed_shard(tier, sh):
 def partial_shard(tier, sh):
     import functools
     st = runner.Stats()
-    for shape in base_shapes():
+    for shape in [s_ for s_ in space.universe(3, 'abc') if space.name_sorted(s_)]:
         f = space.make_func(shape, defaults=dict((p[0], repr('d_' + p[0])) for p in shape if p[2]), cache=False)
+        orig = inspect.signature(f)
+        npos = len(space.positionals(shape))
         for nm in space.kwpass(shape) + (['zz'] if space.has(shape, VK) else []):
-            st.inc('states')
-            st.inc('transitions')
-            p = functools.partial(f, **{nm: ('bound', nm)})
-            status, sig = alg.outcome(S.signature, p)
-            if status != 'ok':
-                continue
-            q = sig.parameters.get(nm)
-            if q is None or q.kind != q.KEYWORD_ONLY or q.default != ('bound', nm):
-                st.violation('partial-keyword-rule', {'op': 'partial', 'shape': space.to_json(shape), 'name': nm},
-                             {'function': 'def f' + show(shape), 'bound': nm, 'result': str(sig)}, {})
-            st.seen('result', ('partial', shape, nm))
+            for n in range(0, min(npos, 2) + 1):
+                st.inc('states')
+                st.inc('transitions')
+                p = functools.partial(f, *([0] * n), **{nm: ('bound', nm)})
+                status, sig = alg.outcome(S.signature, p)
+                if status == 'other':
+                    st.violation('partial-keyword-rule', {'op': 'partial', 'shape': space.to_json(shape), 'name': nm, 'n': n},
+                                 {'function': 'def f' + show(shape), 'bound_positionals': n, 'bound_keyword': nm,
+                                  'error': '%s: %s' % (type(sig).__name__, sig)}, {'exception': type(sig).__name__})
+                    continue
+                if status != 'ok':
+                    continue
+                q = sig.parameters.get(nm)
+                probs = []
+                if q is None or q.kind != q.KEYWORD_ONLY or q.default != ('bound', nm):
+                    probs.append('bound keyword %r is not a keyword-only parameter defaulting to the bound value' % nm)
+                # every other surviving parameter keeps its own default and annotation, kinds only POK -> KWO
+                for r in sig.parameters.values():
+                    o = orig.parameters.get(r.name)
+                    if r.name == nm or o is None:
+                        continue
+                    if r.default != o.default or r.annotation != o.annotation or not kind_ok(o.kind, r.kind):
+                        probs.append('parameter %s no longer carries its own default / annotation / kind (%s)' % (r, o))
+                if probs:
+                    st.violation('partial-keyword-rule', {'op': 'partial', 'shape': space.to_json(shape), 'name': nm, 'n': n},
+                                 {'function': 'def f' + show(shape), 'bound_positionals': n, 'bound_keyword': nm,
+                                  'result': str(sig), 'problems': probs}, {})
+                st.seen('result', ('partial', shape, nm, n))
     return st
 
 
